@@ -11,7 +11,7 @@ from .. import explore
 ID = 'C13'
 LEVEL = 'model_checking'
 RULE = ('per configuration (sampling period and its unit, default unit, tolerance): BFS over time-stamp sequences of the real online monitor, '
-        'events = gaps from P*{1-2tol, 1-tol, 1-tol/2, 1, 1+tol/2, 1+tol, 1+2tol, 2} (dyadic, so interval membership is exact), counters kept '
+        'events = gaps from P*{1-2tol, 1-tol, 1-tol/2, 1, 1+tol/2, 1+tol, 1+2tol, 2, 15/16, 17/16} and one reset() (dyadic, so interval membership is exact), counters kept '
         'in the state key; invariant on every transition: sampling_violation_counter == number of gaps outside [P(1-tol), P(1+tol)] (computed '
         'with exact fractions) and the returned robustness == reference rho (unaffected by jitter); offline: every sequence as the time column of '
         'evaluate() on the offline and on the combined specification; non-trivial = the sequence has at least one in-tolerance and one out-of-tolerance gap')
@@ -31,7 +31,8 @@ def period_in_default(cfg):
 
 
 def gaps(P, tol):
-    fs = [1 - 2 * tol, 1 - tol, 1 - tol / 2, Fr(1), 1 + tol / 2, 1 + tol, 1 + 2 * tol, Fr(2)]
+    # tolerance-relative letters plus two fixed ones close to the period (they matter when tol = 0 or tol is large)
+    fs = [1 - 2 * tol, 1 - tol, 1 - tol / 2, Fr(1), 1 + tol / 2, 1 + tol, 1 + 2 * tol, Fr(2), Fr(15, 16), Fr(17, 16)]
     out = []
     for k in fs:
         g = P * k
@@ -172,7 +173,7 @@ def run_shard(shard, tier, res):
     cfg = tuple(shard['cfg'])
     tol = Fr(*shard['tol'])
     m = JitterModel(cfg, tol)
-    depth = 5 if tier == 'quick' else 7
+    depth = 4 if tier == 'quick' else 6
 
     def on_violation(hist, msg):
         case = {'mode': 'online', 'cfg': list(cfg), 'tol': shard['tol'], 'gaps': [('R' if g == 'R' else [g.numerator, g.denominator]) for g in hist]}
